@@ -306,11 +306,19 @@ def _run(ctx, case, net):
                 amb = lim - guard <= delta <= lim + guard
                 want_ret = delta < lim
             if not amb and rec["ret"] is not want_ret:
-                ctx.violation("result-vs-network-ack/" + ("true-without-ack" if rec["ret"] else "false-despite-ack"),
+                mech = ""
+                if rec["ret"] is True and arr and (ms.get("foreign") or {}).get("trigger") == "first_hop":
+                    # the ACK did arrive, after route_timeout, while the origin was busy relaying a
+                    # foreign frame inside its wait loop (the loop looks at the clock only between
+                    # update() calls and accepts an ACK whenever it finds one)
+                    mech = "/late-ack-found-after-relaying-inside-the-wait"
+                ctx.violation("result-vs-network-ack/" + ("true-without-ack" if rec["ret"] else "false-despite-ack") + mech,
                               "%s returned %r; NETWORK_ACK arrivals at the origin: %r ms after the "
                               "first hop took the frame (route_timeout %d ms)"
                               % (what, rec["ret"], [round((a - first_acc[0]) / 1e6, 2) for a in arr] if first_acc else arr,
                                  case["route_timeout"]), case)
+                if mech:
+                    continue
                 return
             if amb:
                 ctx.count("guard_band_cases")
